@@ -317,6 +317,7 @@ class Chip:
         self.cycle = 0
         self.rpd = 0
         self.cw_events = []
+        self.last_st = 0x0E
         self.cfg_writes = []  # [old PWR_UP|PRIM_RX, new, CE] at every CONFIG write (C08.CE)
 
     # ---- derived state
@@ -375,6 +376,7 @@ class Chip:
         out = bytes(out)
         self.s.advance(4000 + 800 * len(out))
         st = self.status()  # STATUS is shifted out while the command byte is shifted in (datasheet 8.3.1)
+        self.last_st = st
         cmd = out[0]
         data = out[1:]
         resp = bytearray(len(out))
